@@ -155,6 +155,8 @@ def h_stream(g0: int, g1: int, g2: int, g3: int, d0: int, d1: int, d2: int, d3: 
     c = vkopf.cell()
     uids, limit = c['uids'], c.get('limit')
     n = len(uids)
+    if c.get('g0_zero'):
+        g0 = 0          # nothing depends on absolute time: the first arrival is the origin (w.l.o.g.)
     gaps, durs = [g0, g1, g2, g3][:n], [d0, d1, d2, d3][:n]
     try:
         log, overlaps, maxactive, result, arrivals = run_scenario(
@@ -178,6 +180,7 @@ def h_cancel(g0: int, g1: int, g2: int, d0: int, d1: int, d2: int, idle: int, ca
     c = vkopf.cell()
     uids, limit = c['uids'], c.get('limit')
     n = len(uids)
+    g0 = 0      # the first arrival is the origin of time (w.l.o.g.)
     gaps, durs = [g0, g1, g2][:n], [d0, d1, d2][:n]
     try:
         log, overlaps, maxactive, result, arrivals = run_scenario(
@@ -246,10 +249,9 @@ def obligations():
     obs.append(Ob('h_stream', {'uids': ['a', 'a'], 'limit': None, 'bookmarks': [1]}, tiers=('quick', 'thorough'), timeout=300))
     for p in pats3:
         for limit in (None, 1, 2):
-            tiers = ('quick', 'thorough') if (limit is None and p in (['a', 'a', 'a'], ['a', 'b', 'a'])) else ('thorough',)
-            obs.append(Ob('h_stream', {'uids': p, 'limit': limit}, tiers=tiers, timeout=3000))
+            obs.append(Ob('h_stream', {'uids': p, 'limit': limit, 'g0_zero': True}, tiers=('thorough',), timeout=3400))
     for p in pats4:
-        obs.append(Ob('h_stream', {'uids': p, 'limit': None}, tiers=('thorough',), timeout=3400))
+        obs.append(Ob('h_stream', {'uids': p, 'limit': None, 'g0_zero': True}, tiers=('thorough',), timeout=3400))
     for p in pats2:
         obs.append(Ob('h_cancel', {'uids': p, 'limit': None}, tiers=('quick', 'thorough'), timeout=600,
                       twins=['cancel_mid_stream']))
